@@ -117,20 +117,25 @@ where
         let mut this = self.project();
         let mut sink = this.sink.as_mut();
 
-        ready!(sink.as_mut().poll_close(cx))?;
+        // All frames must be in the inner writer before the EOF marker is appended to it...
+        ready!(sink.as_mut().poll_flush(cx))?;
 
-        let mut inner = sink.get_mut().get_mut().get_mut();
+        {
+            let mut inner = sink.as_mut().get_mut().get_mut().get_mut();
 
-        while this.eof_buf.has_remaining() {
-            let bytes_written = ready!(Pin::new(&mut inner).poll_write(cx, this.eof_buf.chunk()))?;
+            while this.eof_buf.has_remaining() {
+                let bytes_written =
+                    ready!(Pin::new(&mut inner).poll_write(cx, this.eof_buf.chunk()))?;
 
-            this.eof_buf.advance(bytes_written);
+                this.eof_buf.advance(bytes_written);
 
-            if bytes_written == 0 {
-                return Poll::Ready(Err(io::Error::from(io::ErrorKind::WriteZero)));
+                if bytes_written == 0 {
+                    return Poll::Ready(Err(io::Error::from(io::ErrorKind::WriteZero)));
+                }
             }
         }
 
-        Poll::Ready(Ok(()))
+        // ...and the inner writer is shut down last: nothing is written to it afterwards.
+        sink.as_mut().poll_close(cx)
     }
 }
